@@ -430,6 +430,49 @@ def _row_iterator(ctx, f):
               node=f.node)
 
 
+def _complete_generator(fnode):
+    """Does this generator hand on every element of every chunk of its
+    (single) parameter?  Accepted shape, after canonicalisation:
+        for chunk in <param>:  yield from <anything of chunk>
+    or the nested-loop spelling with a plain ``yield row`` of the inner
+    loop variable - without any branch, early exit or skipped element."""
+    params = [a.arg for a in fnode.args.args]
+    if len(params) != 1:
+        return False
+    if any(isinstance(n, (ast.Break, ast.Return, ast.If, ast.Continue,
+                          ast.While, ast.Try, ast.IfExp))
+           for n in ast.walk(fnode)):
+        return False
+    body = [s_ for s_ in fnode.body if not (
+        isinstance(s_, ast.Expr) and isinstance(s_.value, ast.Constant))]
+    if len(body) != 1 or not isinstance(body[0], ast.For):
+        return False
+    outer = body[0]
+    if not (isinstance(outer.iter, ast.Name) and outer.iter.id == params[0]
+            and isinstance(outer.target, ast.Name) and not outer.orelse
+            and len(outer.body) == 1):
+        return False
+    chunk = outer.target.id
+    st = outer.body[0]
+
+    def over_chunk(e):
+        # the chunk itself, or one call with the chunk as its only argument
+        if isinstance(e, ast.Name):
+            return e.id == chunk
+        return isinstance(e, ast.Call) and len(e.args) == 1 and \
+            not e.keywords and isinstance(e.args[0], ast.Name) and \
+            e.args[0].id == chunk
+    if isinstance(st, ast.Expr) and isinstance(st.value, ast.YieldFrom):
+        return over_chunk(st.value.value)
+    if isinstance(st, ast.For) and not st.orelse and len(st.body) == 1 and \
+            isinstance(st.target, ast.Name) and over_chunk(st.iter):
+        y = st.body[0]
+        return isinstance(y, ast.Expr) and isinstance(y.value, ast.Yield) \
+            and isinstance(y.value.value, ast.Name) and \
+            y.value.value.id == st.target.id
+    return False
+
+
 def _merged_entry_points(ctx):
     """read() and get_chunked_data_iterator() of the merged reader hand out
     rows only from get_row_iterator(): the merge order and the sortedness
@@ -644,14 +687,18 @@ def _table_merger(ctx, f):
     # ---- exhaustion deletes the three parallel lists at the same index
     ok_del = False
     dels = []
+    all_evs = container_events(f.node, T, cfg)
     for h in tr.handlers:
         if h.type is not None and "StopIteration" in ast.unparse(h.type):
-            for s in h.body:
-                if isinstance(s, ast.Delete):
-                    for t in s.targets:
-                        if isinstance(t, ast.Subscript):
-                            dels.append((T.of(t.value)[:2], T.of(t.slice)))
-            ok_del = sorted(d[0][1] for d in dels if d[0][0] == "var") == \
+            for e in all_evs:
+                if not inside(e.node, h):
+                    continue
+                # del xs[i]  /  xs.pop(i): the element at that index leaves
+                if e.kind == "del":
+                    dels.append((("var", root_name(e.recv)), e.key))
+                elif e.kind == "pop" and len(e.args) == 1:
+                    dels.append((("var", root_name(e.recv)), e.args[0]))
+            ok_del = sorted(d[0][1] for d in dels if d[0][1]) == \
                 sorted([ITERS, ROWS, VALS]) and all(
                     d[1] == IDX for d in dels) and len(dels) == 3
     ctx.check(ok_del, "C14b-exhaustion-deletes-all", f,
@@ -689,13 +736,9 @@ def _table_merger(ctx, f):
     if src[0] == "call" and src[1] in ctx.prog.funcs:
         nested = ctx.prog.funcs[src[1]]
         where = nested.node
-        if any(isinstance(n, ast.Yield) for n in ast.walk(nested.node)):
-            loops = [n for n in ast.walk(nested.node)
-                     if isinstance(n, ast.For)]
-            ok_n = len(loops) == 2 and not any(
-                isinstance(n, (ast.Break, ast.Return, ast.If))
-                for n in ast.walk(nested.node)) and any(
-                isinstance(n, ast.Yield) for n in ast.walk(loops[1]))
+        if any(isinstance(n, (ast.Yield, ast.YieldFrom))
+               for n in ast.walk(nested.node)):
+            ok_n = _complete_generator(nested.node)
         else:
             rs = Terms(DefUse(ctx.prog, nested)).returns()
             ok_n = len(rs) == 1 and complete_gen(rs[0][1])
